@@ -99,3 +99,15 @@ func (i *Uint64) CAS(old, new uint64) bool {
 	}
 	return false
 }
+
+// Value mirrors go.uber.org/atomic.Value (sync/atomic.Value).
+type Value struct{ v interface{} }
+
+func (v *Value) Load() interface{} { sched.Op("atomic-load", v); return v.v }
+func (v *Value) Store(x interface{}) {
+	if x == nil {
+		panic("sync/atomic: store of nil value into Value")
+	}
+	sched.Op("atomic-store", v)
+	v.v = x
+}
